@@ -276,7 +276,7 @@ class BSplineBasis:
         if self.periodic >= 0:
             if knot < self.start() or knot > self.end():
                 knot = (knot - self.start()) % (self.end() - self.start()) + self.start()
-        elif knot < self.start() or self.end() < knot:
+        elif knot < self.start() - state.knot_tolerance or self.end() + state.knot_tolerance < knot:
             raise ValueError('out of range')
 
         # First knot that is larger than the right tolerance point
